@@ -2365,3 +2365,57 @@ func ruleDispatchDecision(r *Run, rule string) {
 		}
 	}
 }
+
+// ruleLatencyClassConstant (R12.10): the flags of an instruction's Execution that select its
+// write-back latency in the cost model (RegisterChange: register access; MemoryChange: memory
+// access) are the same CONSTANT on every non-error outcome of the opcode's Run — they depend on
+// the opcode, not on operand fields or values (an indirect jump with rd = zero is still charged
+// the register access its class is charged).
+func ruleLatencyClassConstant(r *Run, rule string) {
+	a := analyseISA(r.W)
+	for _, op := range a.ops {
+		key := "risc.(*" + op.typeName + ").Run:latency-class"
+		t := op.terms["Run"]
+		if t == nil {
+			r.undecided(rule, key, op.pos["Run"], "Run is not in a recognised form: %s", op.errs["Run"])
+			continue
+		}
+		seen := map[string]bool{}
+		nonConst := false
+		var walk func(t *Term)
+		walk = func(t *Term) {
+			if t.Op == "ite" {
+				walk(t.Args[1])
+				walk(t.Args[2])
+				return
+			}
+			if t.Op != "out" || len(t.Args) == 0 || len(t.Args[0].Args) != 2 {
+				return
+			}
+			ex, errT := t.Args[0].Args[0], t.Args[0].Args[1]
+			if errT.Op != "nil" && !(errT.Op == "const" && strings.HasPrefix(errT.S, "nil")) {
+				return // an error outcome
+			}
+			if !strings.HasPrefix(ex.Op+":"+ex.S, "struct:Execution") && ex.Op != "struct" {
+				nonConst = true
+				return
+			}
+			flags := map[string]string{"RegisterChange": "false", "MemoryChange": "false"}
+			for _, fv := range ex.Args {
+				if fv.Op != "fv" {
+					continue
+				}
+				if _, ok := flags[fv.Hint]; ok {
+					if b, isC := fv.Args[0].constBool(); isC {
+						flags[fv.Hint] = fmt.Sprint(b)
+					} else {
+						nonConst = true
+					}
+				}
+			}
+			seen["reg="+flags["RegisterChange"]+" mem="+flags["MemoryChange"]] = true
+		}
+		walk(t)
+		r.check(!nonConst && len(seen) == 1, rule, key, op.pos["Run"], "%s: the flags that select the write-back latency are one constant pair on every successful outcome (seen: %v)", op.mnemonic, sortedKeys(seen))
+	}
+}
